@@ -7,7 +7,7 @@
 (* same tokens.  Verdicts are total: a case that differs takes a reject    *)
 (* step naming what differs.                                               *)
 (***************************************************************************)
-EXTENDS Parser, Json, IOUtils, TLCExt
+EXTENDS Parser, Lexer, Json, IOUtils, TLCExt
 
 Recs == ndJsonDeserialize(IOEnv.TRACE_FILE)
 
@@ -16,7 +16,15 @@ vars == <<i, state>>
 
 Init == i \in 1..Len(Recs) /\ state = "none"
 
-Why(rec, v) == IF v.ok # rec.ok THEN (IF v.ok THEN "specification-accepts-code-refuses" ELSE "specification-refuses-code-accepts")
+\* the default spellings of the eight identifier tokens
+StdTok == [root |-> <<36>>, fake |-> <<94>>, self |-> <<64>>, key |-> <<35>>, union |-> <<124>>, inter |-> <<38>>, ctx |-> <<95>>, keys |-> <<126>>]
+\* the real lexer's tokens (kind and raw text) are the tokens the rule-list model (Lexer.tla) cuts the text into
+LexAgrees(rec) == LET ts == Tokens(rec.text, StdTok, "longest-first") IN
+                  /\ Len(ts) = Len(rec.toks)
+                  /\ \A j \in 1..Len(ts) : ts[j].k = rec.toks[j].k /\ ts[j].v = rec.toks[j].raw
+
+Why(rec, v) == IF ~LexAgrees(rec) THEN "lexer-model-cuts-the-text-into-other-tokens"
+               ELSE IF v.ok # rec.ok THEN (IF v.ok THEN "specification-accepts-code-refuses" ELSE "specification-refuses-code-accepts")
                ELSE IF ~v.ok /\ v.err # rec.err THEN "other-error-class"
                ELSE IF v.ok /\ v.tree # rec.tree THEN "other-syntax-tree"
                \* where the recorder also carries the verdict of the RFC typing rules (Typing.tla, for programs of MC_Typing): the three agree
@@ -27,7 +35,8 @@ Judge ==
   /\ LET v == Verdict(Recs[i].toks)
          w == Why(Recs[i], v) IN
        /\ state' = IF w = "" THEN "accepted" ELSE "reject"
-       /\ IF w # "" THEN PrintT(ToJson([reject |-> Recs[i].id, why |-> w, spec |-> v])) ELSE TRUE
+       /\ IF w # "" THEN PrintT(ToJson([reject |-> Recs[i].id, why |-> w,
+                                         spec |-> IF w = "lexer-model-cuts-the-text-into-other-tokens" THEN [tokens |-> Tokens(Recs[i].text, StdTok, "longest-first")] ELSE v])) ELSE TRUE
   /\ UNCHANGED i
 Next == Judge
 Spec == Init /\ [][Next]_vars /\ WF_vars(Next)
